@@ -202,6 +202,36 @@ def check_keyboard(ctx, rep, tier):
     def eq(x):
         return lambda v: v == x
 
+    # ---- new(): the three stages start in their own initial conditions, parameters are installed as given
+    fnew = find_generic_method(ctx, KB, 'new')
+    e0 = Engine(prog)
+    lv0 = e0.run(fnew['path'])
+    okn = len(lv0) == 1 and lv0[0].kind == 'return' and lv0[0].ret is not None and lv0[0].ret[0] == 'adt'
+    why = ''
+    if okn:
+        kb = lv0[0].ret
+        argv = [e0.deep(e0.initial_store[('L', 0, i)], _St(lv0[0].doms)) for i in (1, 2, 3)]
+        eps = Engine(prog); ps0 = eps.run(m('Ps2Decoder', 'new'))[0].ret
+        if kb[3][i_ps2] != ps0:
+            okn, why = False, 'frame decoder does not start as Ps2Decoder::new() (%s)' % term_str(kb[3][i_ps2])
+        elif kb[3][i_ss] not in argv:
+            okn, why = False, 'scancode set given to new() is not installed unchanged'
+        else:
+            eed = Engine(prog)
+            ed0 = eed.run(find_generic_method(ctx, 'EventDecoder', 'new')['path'])[0].ret
+            ed = kb[3][i_ed]
+            # compare field-wise: constants must agree, parameters must be new()'s parameters
+            for a_, b_ in zip(ed[3], ed0[3]):
+                if b_[0] in ('c',) or (b_[0] == 'adt' and not value_atoms(b_)):
+                    if a_ != b_:
+                        okn, why = False, 'event decoder does not start as EventDecoder::new(..) (%s)' % term_str(ed)
+                elif a_ not in argv:
+                    okn, why = False, 'layout / Ctrl mode given to new() is not installed unchanged (%s)' % term_str(a_)
+    else:
+        why = 'not a single straight path'
+    rep.ob('wiring', 1, 1 if okn else 0)
+    if not okn:
+        rep.finding('C18 new %s' % why.split(' (')[0][:80], 'Keyboard::new: %s; %s' % (why, leaf_where(lv0[0]) if lv0 else ''))
     # ---- add_byte ----------------------------------------------------------
     f, eng, leaves, init = run('add_byte')
     for lf in leaves:
